@@ -690,6 +690,49 @@ PROPS["C11"] = dict(
                  "coordinates are f64; points of import lists lie on a small integer lattice"],
 )
 
+GRIS_CLASSES = {"1": "refused or crashed on a closed, consistently oriented, simple boundary", "2": "result ill-formed, not fully embedded or with an open face",
+                "3": "negatively oriented face", "4": "faces do not tile the grid rectangle", "5": "a retained point of interest is not a vertex",
+                "6": "a crossing of the boundary with a grid line is not a vertex", "7": "kept area differs from the area of the kept side",
+                "8": "mis-oriented boundary accepted", "9": "an input segment is not covered by free boundary edges of the kept mesh",
+                "10": "C16:loop-inside-one-cell-dropped",
+                "11": "capture or classification refused a valid boundary", "12": "a vertex, edge or face has no anchor",
+                "13": "a point of interest is not a vertex anchored to a node", "14": "edge or face anchored to the wrong kind of entity",
+                "15": "vertex anchored to the wrong kind of entity", "16": "faces connected without crossing a curve have different surfaces",
+                "17": "boundary edges not separated by a node have different curves"}
+VALIDATOR_TRUST = PROPS["C01"]["trusted"][:3] + ["vtkio (reader of the geometry file) is exercised, not modelled",
+                                                 "the kernel itself is not modelled: only its outputs are validated"]
+PROPS["C16"] = dict(
+    level="translation_validation",
+    level_text="per-run validator written in Coq (Extract/GrisOracle.check16, exact dyadic arithmetic, tolerance 2^-30 for computed "
+               "intersection points): for seeded simple polygons (star-shaped and 2-opt random, optionally a second loop), cell sizes "
+               "0.5/1/2 (also anisotropic), three clip modes, clockwise and mis-oriented variants, arbitrary subsets of corners as "
+               "points of interest, it checks on the map returned by grisubal: well-formed, fully embedded, closed faces, no negative "
+               "face, (no clip) faces tile the grid rectangle exactly and every boundary/grid-line crossing and retained PoI is a "
+               "vertex, (clip, all corners PoI) kept area = area of the kept side and every input segment covered by free boundary "
+               "edges; mis-oriented boundaries must be rejected. Proved: the rejection premise is the property's wording "
+               "(C16_misoriented_spec). The kernel is not modelled (partial, see DESIGN.md C16)",
+    technique="Coq-defined validator with exact arithmetic applied to every grisubal run",
+    families=[Family("grisubal", "gris", lambda tier, seed: ["--mode", "grisubal", "--cases", {"quick": "300", "thorough": "5000"}[tier]], None,
+                     [(80, "grisubal_spec", GRIS_CLASSES)])],
+    trusted=VALIDATOR_TRUST,
+    assumptions=["general position w.r.t. the grid is obtained by construction (per-vertex fractional offsets) and by the kernel's own origin shift",
+                 "tolerance 2^-30 (relative to segment length) for points computed by the kernel; areas compared within 2^-24"],
+)
+PROPS["C17"] = dict(
+    level="translation_validation",
+    level_text="per-run validator written in Coq (Extract/GrisOracle.check17) on the anchors of the map returned by capture_geometry + "
+               "classify_capture, for the same seeded boundaries with the clip mode that keeps the bounded region: every vertex / edge / "
+               "face of in-use darts anchored; each PoI a vertex anchored to a node; boundary edges on curves, interior edges and faces "
+               "on surfaces; boundary vertices on nodes or curves, interior vertices on surfaces; adjacent faces share their surface; "
+               "consecutive boundary edges not separated by a node share their curve. Proved: meaning of the anchor-kind test "
+               "(C17_has_dim_spec). The kernels are not modelled (partial, see DESIGN.md C17)",
+    technique="Coq-defined validator applied to every capture + classification run",
+    families=[Family("capture", "gris", lambda tier, seed: ["--mode", "capture", "--cases", {"quick": "300", "thorough": "5000"}[tier]], None,
+                     [(81, "capture_spec", GRIS_CLASSES)])],
+    trusted=VALIDATOR_TRUST,
+    assumptions=["clip modes that keep the unbounded side are outside the property (skipped)"],
+)
+
 # ---- 3-map families of the cross-dimensional properties
 C03_CLASSES3 = {"1": "orbit differs from the closure of the policy's generators and inverses", "2": "transactional orbit differs from the plain one",
                 "3": "cell identifier is not the smallest dart of the cell", "4": "cell iterator wrong",
